@@ -62,6 +62,9 @@ func (c20) ID() string { return "C20" }
 
 func (c20) Plan(tier string) []fw.Unit {
 	us := []fw.Unit{{Check: "C20", Kind: "immutability", Tier: tier, Spec: fw.Spec(enumSpec{})}}
+	for s := 0; s < 4; s++ {
+		us = append(us, fw.Unit{Check: "C20", Kind: "functions", Tier: tier, Spec: fw.Spec(enumSpec{Shard: s, Shards: 4})})
+	}
 	// one unit = one worker process per pair: the process-wide registries are fresh when the pair's baselines are taken
 	n := len(c20Pairs())
 	for s := 0; s < n; s++ {
@@ -356,6 +359,9 @@ func c20RunPairs(a *acc, sp enumSpec, tier string) {
 }
 
 func (c20) Run(u fw.Unit) fw.Result {
+	if u.Kind == "functions" {
+		return c20Functions(u)
+	}
 	a := newAcc("C20", "isolation-"+u.Kind)
 	if u.Kind == "immutability" {
 		c20Immutability(a)
